@@ -72,7 +72,9 @@ Inductive out :=
 | OResp (rid len tag : N)               (* RequestResponseEvent::ResponseReceived *)
 | OFail (rid code : N)                  (* RequestResponseEvent::RequestFailed *)
 | OReq (irid peer len tag : N)          (* RequestResponseEvent::RequestReceived *)
-| OWire (chan len tag : N).             (* a whole frame arrived at the remote end of a carrier *)
+| OWire (chan len tag : N)              (* a whole frame arrived at the remote end of a carrier *)
+| OBind (chan rid : N).                 (* ghost (not printed): on_outbound_substream handed carrier
+                                           chan to the future of request rid *)
 
 (* error codes of RequestFailed *)
 Definition E_CONN_CLOSED : N := 0.      (* Rejected(ConnectionClosed) *)
@@ -203,20 +205,24 @@ Definition complete (s : pst) (f : fut) (r : fres) : pst * list out :=
 
 (* on_outbound_substream on carrier c, followed by the first poll of the new future.
    gate: 0 = the carrier does not accept bytes yet, 1 = it does, 2 = writing fails. *)
+Definition opened_body (cf : cfg) (s : pst) (po : pout) (c gate now : N) : pst * list out :=
+  let s := set_pouts s (drop_po po (pouts s)) in
+  let q := po_req po in
+  let p := po_peer po in
+  if max_size cf <? q_len q then settle s p (q_rid q) (RErr E_TOO_LARGE)
+  else match gate with
+       | 0 => (set_futs s (futs s ++ [mkFut p q c false (now + tmo cf) false]), [])
+       | 1 => (set_futs s (futs s ++ [mkFut p q c true (now + tmo cf) false]),
+               [OWire c (q_len q) (q_tag q)])
+       | _ => settle s p (q_rid q) (RErr E_SUBSTREAM)
+       end.
+
 Definition h_opened (cf : cfg) (s : pst) (sid c gate now : N) : pst * list out :=
   match find_po sid (pouts s) with
   | None => (s, [])
   | Some po =>
-    let s := set_pouts s (drop_po po (pouts s)) in
-    let q := po_req po in
-    let p := po_peer po in
-    if max_size cf <? q_len q then settle s p (q_rid q) (RErr E_TOO_LARGE)
-    else match gate with
-         | 0 => (set_futs s (futs s ++ [mkFut p q c false (now + tmo cf) false]), [])
-         | 1 => (set_futs s (futs s ++ [mkFut p q c true (now + tmo cf) false]),
-                 [OWire c (q_len q) (q_tag q)])
-         | _ => settle s p (q_rid q) (RErr E_SUBSTREAM)
-         end
+    let '(s1, o) := opened_body cf s po c gate now in
+    (s1, OBind c (q_rid (po_req po)) :: o)
   end.
 
 Definition find_fut (c : N) (l : list fut) : option fut := find (fun f => f_chan f =? c) l.
@@ -559,7 +565,7 @@ Definition step (cf : cfg) (st : pst * env) (e : ev) : (pst * env) * list out * 
       let c := k mod N.of_nat (length (chans en)) in
       match nth_error (chans en) (N.to_nat c) with
       | Some ch =>
-        if negb (c_out ch) && negb (c_seen ch) then
+        if negb (c_out ch) then
           let '(s1, o) := h_inread s c (len <=? max_size cf) len tag in
           (s1, mkE (next_sid en) (conns en) (opens en) (set_chan c (mkCh (c_gate ch) true false) (chans en))
                    (now en) (hpend en ++ sent_of o), o, Some c)
@@ -599,6 +605,21 @@ Fixpoint run (cf : cfg) (st : pst * env) (l : list ev) : (pst * env) * list out 
   | e :: t => let '(st1, o, _) := step cf st e in
               let '(st2, o2) := run cf st1 t in (st2, o ++ o2)
   end.
+
+(* the same run, stimulus by stimulus: (stimulus, what was observed, resolved target) *)
+Fixpoint run_steps (cf : cfg) (st : pst * env) (l : list ev) : list (ev * list out * option N) :=
+  match l with
+  | [] => []
+  | e :: t => let '(st1, o, tg) := step cf st e in (e, o, tg) :: run_steps cf st1 t
+  end.
+Definition outs_of (l : list (ev * list out * option N)) : list out :=
+  flat_map (fun x => snd (fst x)) l.
+
+(* carriers (resolved targets) of the stimuli that produced a RequestReceived *)
+Definition has_req (o : list out) : bool :=
+  existsb (fun x => match x with OReq _ _ _ _ => true | _ => false end) o.
+Definition req_chans (l : list (ev * list out * option N)) : list N :=
+  flat_map (fun x => match snd x with Some c => if has_req (snd (fst x)) then [c] else [] | None => [] end) l.
 
 (* terminal events carrying request id r *)
 Definition is_term (r : N) (o : out) : bool :=
